@@ -26,8 +26,8 @@ keys ``workflow`` ('study_api'|'study_cli'|'allsky_api'|'allsky_cli'|'tile_fits'
 * ``rt/wtml/file_type``                    FileType is not the tiles' extension.   extra: ``file_type, extensions``
 * ``rt/wtml/tile_levels``                  TileLevels is not the deepest populated layer. extra: ``tile_levels, deepest_on_disk``
 * ``rt/tile_fits/description_matches_wtml`` the (out_dir, Builder) handed back by ``toasty.tile_fits`` disagrees
-      with ``index_rel.wtml`` in that out_dir (ImageSet attributes as serialised by wwt_data_formats,
-      Place Name/RA/Dec/ZoomLevel), or the call raised on a directory left by an identical call.
+      with ``index_rel.wtml`` in that out_dir (every attribute, text and child element of the ImageSet and of the
+      Place as serialised by wwt_data_formats), or the call raised on a directory left by an identical call.
       extra: ``differs`` (attribute -> [returned, wtml]), ``history`` (all steps), ``override``
 
 Workflows that raise on their *first* (fresh) run are not judged here (nothing was emitted;
@@ -41,8 +41,11 @@ quick   : study via Builder API: schemes {L/Y/YX, LXY} x formats {png, jpg, npy,
           study via the CLI (tile-study + cascade): 2 sizes; all-sky via Builder API: 2 schemes x
           {png, fits, jpg} x depth {0,1,2}; all-sky via the CLI (tile-allsky + cascade) depth 1 and 2;
           pipeline process_todos with a stub image source (LXY/png): 2 sizes;
-          tile_fits: TAN one file, TAN two files, TOAST; histories fresh,reuse,override,reuse /
-          fresh,override,reuse / fresh,reuse,reuse.  Injectivity: all positions to depth 6 plus 3000 seeded positions
+          tile_fits: TAN one file, TAN two files, TOAST; image extents on both sides of the one-tile boundary
+          (TAN 200x150, 256x256, two-file 200x130 mosaic: single tile 0/0/0_0; TAN 300x260, two-file 520x330, 700x520:
+          levels 1-2; TOAST 90x60 and 200x150); histories fresh,reuse,override,reuse /
+          fresh,override,reuse / fresh,reuse,reuse; after every step EVERY field of the returned ImageSet / Place
+          (attributes, texts, child elements, the image set nested in the Place) vs index_rel.wtml.  Injectivity: all positions to depth 6 plus 3000 seeded positions
           and digit-shift adversarial pairs to depth 13.
 thorough: as above with 16 extra seeded image sizes up to 1300 px (level 3) and the corner sizes
           256x256, 257x256, 1x1, 2049x3 (level 4), depth up to 3, all 8 histories of length 3 after the
@@ -481,21 +484,45 @@ def _run_pipeline(spec, d):
     return os.path.join(wd, "processed", "img1")
 
 
+def _flatten_xml(el, prefix, out):
+    """Every field of a serialised element: attributes ('<path>.<Attr>'), text ('<path>#text') and, recursively, child
+    elements ('<path>/<Child>', with an index when a tag repeats)."""
+    for k, v in el.attrib.items():
+        out[prefix + "." + k] = v
+    t = (el.text or "").strip()
+    if t:
+        out[prefix + "#text"] = t
+    tags = [c.tag for c in el]
+    seen = {}
+    for c in el:
+        seen[c.tag] = seen.get(c.tag, 0) + 1
+        name = c.tag if tags.count(c.tag) == 1 else "%s[%d]" % (c.tag, seen[c.tag])
+        _flatten_xml(c, prefix + "/" + name, out)
+    return out
+
+
 def _description_diffs(builder, base):
-    """Compare the Builder handed back with index_rel.wtml (both through the same serialiser)."""
-    imgset_w, place_w = read_wtml(os.path.join(base, "index_rel.wtml"))
-    diffs = {}
+    """Compare EVERY field of the ImageSet / Place handed back with index_rel.wtml (the returned objects go through the
+    serialiser that wrote the file; the file is read with xml.etree): all attributes, texts and child elements of the
+    ImageSet and, when the WTML has a Place, of the Place including the image set nested in it."""
     if builder is None:
         return {"builder": ["None", "present"]}
-    got = dict(builder.imgset.to_xml().attrib)
-    for k in sorted(set(got) | set(imgset_w)):
-        if got.get(k) != imgset_w.get(k):
-            diffs["ImageSet." + k] = [got.get(k), imgset_w.get(k)]
-    if place_w is not None:
-        gp = dict(builder.place.to_xml().attrib)
-        for k in ("Name", "RA", "Dec", "ZoomLevel"):
-            if gp.get(k) != place_w.get(k):
-                diffs["Place." + k] = [gp.get(k), place_w.get(k)]
+    root = ET.parse(os.path.join(base, "index_rel.wtml")).getroot()
+    imgset_el = next((el for el in root.iter("ImageSet")), None)
+    place_el = next((el for el in root.iter("Place")), None)
+    pairs = []
+    if imgset_el is not None:
+        pairs.append(("ImageSet", builder.imgset.to_xml(), imgset_el))
+    if place_el is not None:
+        pairs.append(("Place", builder.place.to_xml(), place_el))
+    diffs = {}
+    if not pairs:
+        return {"wtml": [None, "neither ImageSet nor Place element"]}
+    for name, got_el, want_el in pairs:
+        got, want = _flatten_xml(got_el, name, {}), _flatten_xml(want_el, name, {})
+        for k in sorted(set(got) | set(want)):
+            if got.get(k) != want.get(k):
+                diffs[k] = [got.get(k), want.get(k)]
     return diffs
 
 
@@ -636,10 +663,22 @@ def build_specs(ctx):
         histories = [["fresh"] + list(t) for t in itertools.product(["reuse", "override"], repeat=3)]
     else:
         histories = [["fresh", "reuse", "override", "reuse"], ["fresh", "override", "reuse"], ["fresh", "reuse", "reuse"]]
+    # image extents on both sides of the one-tile boundary (a study of at most 256 x 256 px is the single tile 0/0/0_0 and
+    # is recorded as a plain sky image, a larger one as a tiled study), in both modes, under every history
     setups = [{"mode": "TAN", "n_files": 1, "W": 300, "H": 260, "scale": 0.002},
               {"mode": "TAN", "n_files": 2, "W": 280, "H": 300, "scale": 0.002},
-              {"mode": "TOAST", "n_files": 1, "W": 90, "H": 60, "scale": 0.4}]
+              {"mode": "TOAST", "n_files": 1, "W": 90, "H": 60, "scale": 0.4},
+              {"mode": "TAN", "n_files": 1, "W": 200, "H": 150, "scale": 0.002},
+              {"mode": "TAN", "n_files": 1, "W": 256, "H": 256, "scale": 0.001},
+              {"mode": "TAN", "n_files": 2, "W": 120, "H": 100, "scale": 0.004},
+              {"mode": "TAN", "n_files": 1, "W": 700, "H": 520, "scale": 0.001},
+              {"mode": "TOAST", "n_files": 1, "W": 200, "H": 150, "scale": 0.1}]
     if thorough:
+        setups += [{"mode": "TAN", "n_files": 1, "W": 257, "H": 256, "scale": 0.001},
+                   {"mode": "TAN", "n_files": 1, "W": 1, "H": 1, "scale": 0.01},
+                   {"mode": "TAN", "n_files": 1, "W": rng.randint(2, 256), "H": rng.randint(2, 256), "scale": 0.003},
+                   {"mode": "TAN", "n_files": 1, "W": rng.randint(2, 256), "H": rng.randint(257, 600), "scale": 0.003},
+                   {"mode": "TOAST", "n_files": 1, "W": rng.randint(20, 256), "H": rng.randint(20, 256), "scale": 0.2}]
         setups += [{"mode": "TAN", "n_files": 3, "W": 330, "H": 200, "scale": 0.001},
                    {"mode": "TOAST", "n_files": 2, "W": 120, "H": 80, "scale": 0.2},
                    {"mode": "TAN", "n_files": 1, "W": rng.randint(30, 900), "H": rng.randint(30, 900), "scale": 0.0005},
@@ -682,6 +721,10 @@ def run(ctx):
     ctx.bound("schemes L/Y/YX and LXY; formats png, jpg, npy, fits; study image sizes up to %d px; all-sky depth <= %d; tile_fits TAN "
               "(1-%d files) and TOAST with histories %s" % (1300 if ctx.thorough else 700, 3 if ctx.thorough else 2, 3 if ctx.thorough else 2,
                                                            "all 8 of length 3 after fresh" if ctx.thorough else "fresh,reuse,override,reuse / fresh,override,reuse / fresh,reuse,reuse"))
+    ctx.bound("tile_fits inputs: TAN one-tile pyramids (200x150, 256x256, two-file mosaic 200x130%s) and multi-level ones (300x260, two-file "
+              "520x330, 700x520%s), TOAST 90x60 @0.4 deg/px and 200x150 @0.1 deg/px; after EVERY step of every history every field of the "
+              "returned ImageSet and Place (all attributes, texts and child elements, incl. the image set nested in the Place) is compared "
+              "with index_rel.wtml" % (", 1x1, seeded <= 256 px" if ctx.thorough else "", ", 257x256, seeded" if ctx.thorough else ""))
     nmix = sum(1 for s in specs if s.get("mixed_scales"))
     ctx.bound("%d of the tile_fits runs: TOAST mode, no `start`, 2-3 tiny inputs (<= 30 px) whose pixel scales differ by >= 4x (0.4, 0.1, "
               "0.05 deg/px: natural TOAST levels 1, 3, 4%s), every input order; TileLevels of the WTML and of the returned Builder vs the "
